@@ -456,6 +456,13 @@ def _run(chk):
         f1 = f0 + np.array([[1., 4.], [-1., -4.], [1., 3.], [0., 4.]])
         corpus.append(dict(frames=[f0, f1[[2, 0, 3, 1]], f0[[1, 3, 0, 2]]], sr=(Fraction(2), Fraction(5)), memory=0, max_size=linkgen.LIMIT,
                            strategy='recursive', ndim=2, sr_spell=sp))
+    # two features lost one frame after the other, both back within memory; the third row of frame 0 and the first row of frame 1
+    # are the points a second linking job started in between would make "the same" if points were identified by a per-process
+    # serial number (run below with another job alive)
+    for mem_ in (2, 3):
+        corpus.append(dict(frames=[np.array([[0., 0.], [0., 20.], [0., 40.]]), np.array([[30., 30.], [0., 0.5], [0., 20.5]]),
+                                   np.array([[0., 1.], [0., 21.]]), np.array([[0., 1.5], [0., 21.5], [0., 40.5], [30., 30.5]])],
+                           sr=Fraction(3), memory=mem_, max_size=linkgen.LIMIT, strategy='recursive', ndim=2))
     for k in range(n):
         c = corpus[k] if k < len(corpus) else c02.gen_case(rng, chk.tier)
         c['max_size'] = linkgen.LIMIT
